@@ -940,8 +940,9 @@ class Check:
             raise TypeError('unexpected keyword arguments: %r' % kwargs.keys())
 
         self.validators = _get_arg_val('validate', 'callable', callable, validate)
-        self.instance_of = _get_arg_val('instance_of', 'a type',
-                                        lambda x: isinstance(x, type), instance_of, False)
+        # isinstance() accepts a type or a tuple of types, no other sequence
+        self.instance_of = tuple(_get_arg_val('instance_of', 'a type',
+                                              lambda x: isinstance(x, type), instance_of, False))
         self.types = _get_arg_val('type', 'a type',
                                   lambda x: isinstance(x, type), type_arg, False)
 
